@@ -413,7 +413,10 @@ impl Backend for SimBackend {
     }
 
     fn sleep(&self, d: Duration) -> BoxFut {
-        Box::pin(self.0.sleep_ticks(d.as_millis() as u64))
+        // a fraction of a tick still takes a tick (a timer never fires early), and a sleep always gives the
+        // executor a turn: a library loop that sleeps zero time must not spin inside one poll for ever
+        let ticks = d.as_micros().div_ceil(1000) as u64;
+        if ticks == 0 { Box::pin(YieldNow(false)) } else { Box::pin(self.0.sleep_ticks(ticks)) }
     }
 
     fn preemption_points(&self) -> bool {
